@@ -1299,6 +1299,116 @@ def collect_process_state():
 
 
 # ------------------------------------------------------------------------------- entry defaults
+# ------------------------------------------------------------------ writes on objects received as arguments
+HANDLER_CLASSES = ("NetworkBuilder", "DefaultNetworkHandler")
+
+
+def collect_argument_writes():
+    """attribute writes on objects a function of the hdf5 modules RECEIVED as an argument (a third kind of shared store: the
+    object belongs to the caller and may be handed to any number of handlers):  p.x = / p.x += / p.x[k] = / p[k] = /
+    del p.x / setattr(p, ..) / delattr(p, ..) / p.x.<mutator>(..) / p.<mutator>(..) / vars(p)[..] = / p.__dict__...,
+    p = any non-self parameter or a local name bound to one (`q = p`, `for q in (p, ...)`, `q = p or ...`)"""
+    rows = []
+
+    def base_of(e):
+        """(root name, first attribute below the root or None) of a store/mutation target expression"""
+        attr = None
+        while True:
+            if isinstance(e, ast.Attribute):
+                attr = e.attr
+                e = e.value
+            elif isinstance(e, ast.Subscript):
+                attr = "[]" if not isinstance(e.value, (ast.Attribute, ast.Subscript)) else attr
+                e = e.value
+            elif isinstance(e, ast.Call) and isinstance(e.func, ast.Name) and e.func.id == "vars" and len(e.args) == 1:
+                attr = "__dict__"
+                e = e.args[0]
+            elif isinstance(e, ast.Name):
+                return e.id, attr
+            else:
+                return None, None
+
+    for m in W.mods.values():
+        if not m.name.startswith("neuroml.hdf5"):
+            continue
+        for fn in m.all_fns:
+            params = list(fn.params)
+            if fn.cls is not None and fn.kind != "staticmethod" and fn.pos:
+                params = [x for x in params if x != fn.pos[0]]
+            if not params:
+                continue
+            alias = {x: x for x in params}          # local name -> parameter it may denote
+            nodes = fn.scope_nodes()
+            changed = True
+            while changed:
+                changed = False
+                for n in nodes:
+                    srcs, tgts = [], []
+                    if isinstance(n, ast.Assign):
+                        srcs, tgts = [n.value], n.targets
+                    elif isinstance(n, ast.AnnAssign) and n.value is not None:
+                        srcs, tgts = [n.value], [n.target]
+                    elif isinstance(n, ast.NamedExpr):
+                        srcs, tgts = [n.value], [n.target]
+                    elif isinstance(n, (ast.For, ast.AsyncFor)):
+                        srcs, tgts = [n.iter], [n.target]
+                    for src in srcs:
+                        cands = [src]
+                        if isinstance(src, (ast.Tuple, ast.List, ast.Set)):
+                            cands = list(src.elts)
+                        elif isinstance(src, ast.BoolOp):
+                            cands = list(src.values)
+                        elif isinstance(src, ast.IfExp):
+                            cands = [src.body, src.orelse]
+                        for c in cands:
+                            if isinstance(c, ast.Name) and c.id in alias:
+                                for t in tgts:
+                                    for nm in target_names(t):
+                                        if nm not in alias:
+                                            alias[nm] = alias[c.id]
+                                            changed = True
+
+            def add(node, root, attr, how):
+                rows.append({"module": m.name, "cls": fn.cls.name if fn.cls is not None else "", "func": fn.qual,
+                             "param": alias[root], "via": root, "attr": attr or "<object>", "line": getattr(node, "lineno", 0),
+                             "how": how, "handler": bool(fn.cls is not None and fn.cls.name in HANDLER_CLASSES)})
+
+            for n in nodes:
+                tg = []
+                if isinstance(n, ast.Assign):
+                    tg = [(t, "assignment") for t in n.targets]
+                elif isinstance(n, (ast.AugAssign, ast.AnnAssign)):
+                    tg = [(n.target, "augmented assignment" if isinstance(n, ast.AugAssign) else "assignment")]
+                elif isinstance(n, ast.Delete):
+                    tg = [(t, "del") for t in n.targets]
+                elif isinstance(n, (ast.For, ast.AsyncFor)):
+                    tg = [(n.target, "loop target")]
+                flat = []
+                for t, how in tg:
+                    if isinstance(t, (ast.Tuple, ast.List)):
+                        flat += [(e, how) for e in ast.walk(t) if isinstance(e, (ast.Attribute, ast.Subscript))]
+                    else:
+                        flat.append((t, how))
+                for t, how in flat:
+                    if isinstance(t, (ast.Attribute, ast.Subscript)):
+                        root, attr = base_of(t)
+                        if root in alias:
+                            add(n, root, attr, "%s `%s`" % (how, ast.unparse(t)[:60]))
+                if isinstance(n, ast.Call):
+                    f = n.func
+                    if isinstance(f, ast.Name) and f.id in ("setattr", "delattr") and n.args:
+                        root, attr = base_of(n.args[0])
+                        if root in alias:
+                            nm = n.args[1].value if len(n.args) > 1 and isinstance(n.args[1], ast.Constant) else "<dynamic>"
+                            add(n, root, attr or str(nm), "`%s`" % ast.unparse(n)[:60])
+                    elif isinstance(f, ast.Attribute) and f.attr in MUTATORS:
+                        root, attr = base_of(f.value)
+                        if root in alias and not (attr is None and isinstance(f.value, ast.Name) and f.attr in ("get", "copy")):
+                            add(n, root, attr, "mutating call `%s`" % ast.unparse(n)[:60])
+    rows.sort(key=lambda r: (r["module"], r["line"], r["attr"]))
+    return rows
+
+
 def collect_entry_defaults(defaults):
     lo = W.mods["neuroml.loaders"]
     res = {"modes": {}, "calls": {}}
@@ -1529,6 +1639,7 @@ def main():
     globs, ext = collect_globals()
     classmeta = collect_classmeta()
     process = collect_process_state()
+    argw = collect_argument_writes()
     entry = collect_entry_defaults(defaults) if "neuroml.loaders" in W.mods else {}
     bshape = builder_shape()
     seen = set()
@@ -1538,7 +1649,7 @@ def main():
         if k not in seen:
             seen.add(k)
             uniq.append(u)
-    doc = {"defaults": defaults, "fields": fields, "globals": globs, "classmeta": classmeta, "process_state": process, "external_state_calls": ext,
+    doc = {"defaults": defaults, "fields": fields, "globals": globs, "classmeta": classmeta, "process_state": process, "argument_writes": argw, "external_state_calls": ext,
            "entry_defaults": entry, "builder_shape": bshape, "untranslatable": uniq,
            "modules": sorted(W.mods), "functions_scanned": sum(len(m.all_fns) for m in W.mods.values())}
     print(json.dumps(doc))
